@@ -174,8 +174,10 @@ Definition value_cmp (op : cmpop) (a b : value) : res bool :=
   | CGe => do r <- value_lt a b; Ok (negb r)
   end.
 
-(* ---- has_tag (item.cc:58-72, post.cc:52-61): the first tag whose name matches decides
-   when it has a value; a matching tag without a value is skipped when a value is asked for ---- *)
+(* ---- has_tag (item.cc:58-73, post.cc:52-61): some tag whose name matches; when a value is asked
+   for, some tag whose name matches AND whose value matches - a name match whose value does not
+   match (or that has no value) is passed over and the scan goes on (repaired by 27e3f7d, F207;
+   before, the first valued tag whose name matched decided) ---- *)
 Fixpoint tag_scan (tp : str) (vp : option str) (tags : tagmap) : bool :=
   match tags with
   | [] => false
@@ -184,7 +186,7 @@ Fixpoint tag_scan (tp : str) (vp : option str) (tags : tagmap) : bool :=
         match vp with
         | None => true
         | Some vm => match v with
-                     | Some vs => contains_ci vm vs
+                     | Some vs => if contains_ci vm vs then true else tag_scan tp vp t
                      | None => tag_scan tp vp t
                      end
         end
